@@ -270,10 +270,10 @@ Proof.
     + neutral s; auto. apply owes_eq; auto.
       rewrite (owe_h_of _ _ _ _ Hh Hf), Hp0. erewrite owe_h_inside; [| simpl; eauto | simpl; reflexivity]. reflexivity.
     + eapply SP_close_enter_closed; eauto; congruence.
-  - neutral s; auto. apply owes_eq; [|fsimpl; auto].
-    rewrite (owe_h_of _ _ _ _ Hh Hf), Hp0. eapply owe_h_release; eauto.
-    + fsimpl. reflexivity.
-    + intros t' Hn. fsimpl. apply find_remove_neq; auto.
+  - cc_cases s;
+    (neutral s; auto; apply owes_eq; [|fsimpl; auto];
+     rewrite (owe_h_of _ _ _ _ Hh Hf), Hp0; eapply owe_h_release; eauto;
+     [ fsimpl; reflexivity | intros t' Hn; fsimpl; apply find_remove_neq; auto ]).
 Qed.
 
 Lemma SP_same s s' :
@@ -530,7 +530,7 @@ Proof.
     eapply SP_close_enter_closed; eauto. apply Hncr; discriminate.
   - (* C_G3 *)
     pay s Hh Ef. apply owe_r_none. apply FI_idle_runt; auto; intros E; rewrite E in Hok; discriminate.
-  - (* C_G4 *) neutral s; auto. release_same s Hh Ef.
+  - (* C_G4 *) cc_cases s; (neutral s; auto; release_same s Hh Ef).
   - (* P_WaitRunFinished *)
     destruct (run_finished s) as [[|]|]; auto.
     assert (Hnh : holder s <> Some t) by (eapply unlocked_not_holder; eauto).
@@ -678,7 +678,11 @@ Lemma NoPS_refuse s t c : NoPS s (refuse s t c).
 Proof. unfold refuse. destruct (is_cont c); [destruct (cont_closed (release s))|]; nps. Qed.
 
 Lemma NoPS_close_trigger s t : NoPS s (close_trigger s t).
-Proof. unfold close_trigger, close_enter_closed. destruct (st_fsm s); try nps. destruct (runt s); nps. Qed.
+Proof.
+  unfold close_trigger, close_enter_closed. destruct (st_fsm s); try nps.
+  - destruct (runt s); nps.
+  - cc_cases s; nps.
+Qed.
 
 Lemma NoPS_enter_close s t : NoPS s (enter_close s t).
 Proof.
@@ -731,7 +735,7 @@ Proof.
   destruct l as [t c | t | | o]; simpl.
   - left. apply NoPS_do_call.
   - unfold do_step. destruct (find_task (tasks s) t) as [[c p]|]; [|left; apply NoPS_refl; reflexivity].
-    destruct p; try (left; nps; fail); try (left; apply NoPS_enter);
+    destruct p; try (left; nps; fail); try (left; cc_cases s; nps; fail); try (left; apply NoPS_enter);
       try (right; split; [reflexivity | eexists; reflexivity]).
     + (* S_G3 *) left. destruct c; try nps.
       eapply NoPS_trans; [|apply NoPS_acquire]. apply NoPS_refl. apply rl_trace.
